@@ -42,6 +42,7 @@ type c18Env struct {
 	Delete    bool   `json:"delete"`
 	Sparse    bool   `json:"sparse"`
 	Select    string `json:"select"`
+	Outx      bool   `json:"outx"`
 }
 
 type c18Change struct {
@@ -167,6 +168,20 @@ func c18BuildTree(t testing.TB, r *vrRepo, tr c18Tree, ino *uint64) restic.ID {
 					kids = append(kids, file("../../esc", false))
 				case "u":
 					kids = append(kids, file("..", false))
+				case "D":
+					sub2 := r.queueTreeRaw(t, []*data.Node{file("z", false)})
+					sub := r.queueTreeRaw(t, []*data.Node{dir("y", sub2)})
+					kids = append(kids, dir("x", sub))
+				case "q":
+					sub := r.queueTreeRaw(t, []*data.Node{symlink("y", "outdir", 2)})
+					kids = append(kids, dir("x", sub))
+				case "Q":
+					*ino++
+					sub := r.queueTreeRaw(t, []*data.Node{{Name: "y", Type: data.NodeTypeFifo, Mode: os.ModeNamedPipe | 0o640, ModTime: c18T0, AccessTime: c18T0, ChangeTime: c18T0, Inode: *ino, Links: 1}})
+					kids = append(kids, dir("x", sub))
+				case "p":
+					*ino++
+					kids = append(kids, &data.Node{Name: "x", Type: data.NodeTypeFifo, Mode: os.ModeNamedPipe | 0o640, ModTime: c18T0, AccessTime: c18T0, ChangeTime: c18T0, Inode: *ino, Links: 1})
 				case "S":
 					kids = append(kids, setMode(symlink("x", "outdir", 1), "perm"))
 				case "T":
@@ -213,7 +228,7 @@ func c18Put(path, kind string, depth int) {
 }
 
 // c18Scenario builds the sandbox, runs the real restore and returns the list of changed paths.
-func c18Scenario(r *vrRepo, sn *data.Snapshot, base string, env c18Env) (changes []c18Change, nerr int, err1 string) {
+func c18Scenario(r *vrRepo, sn *data.Snapshot, base string, env c18Env, special map[string]bool) (changes []c18Change, nerr int, err1 string) {
 	target := filepath.Join(base, "target")
 	out := filepath.Join(base, "outside")
 	c18Must(os.MkdirAll(filepath.Join(out, "dir"), 0o755))
@@ -221,6 +236,16 @@ func c18Scenario(r *vrRepo, sn *data.Snapshot, base string, env c18Env) (changes
 	c18Must(os.WriteFile(filepath.Join(out, "dir", "keep"), []byte("keep me"), 0o604))
 	c18Must(os.WriteFile(filepath.Join(out, "file"), []byte("sentinel file outside"), 0o604))
 	c18Must(os.WriteFile(filepath.Join(out, "h"), []byte("hard-linked sentinel outside"), 0o604))
+	outDirs := []string{}
+	if env.Outx {
+		// the outside directory already holds directories named like the snapshot's
+		for _, d := range []string{"x", "x/y", "y"} {
+			c18Must(os.MkdirAll(filepath.Join(out, "dir", d), 0o751))
+			outDirs = append(outDirs, filepath.Join(out, "dir", d))
+		}
+		c18Must(os.WriteFile(filepath.Join(out, "dir", "x", "keepx"), []byte("keep x"), 0o604))
+		outDirs = append(outDirs, filepath.Join(out, "dir", "x", "keepx"))
+	}
 	// pre-existing items
 	c18Put(filepath.Join(target, "a"), env.Pre.A, 0)
 	if env.Pre.A == "dir" {
@@ -239,6 +264,10 @@ func c18Scenario(r *vrRepo, sn *data.Snapshot, base string, env c18Env) (changes
 		c18Must(os.Chtimes(p, c18T1, c18T1))
 	}
 	c18Must(os.Chmod(filepath.Join(out, "dir"), 0o751))
+	for i := len(outDirs) - 1; i >= 0; i-- {
+		c18Must(os.Chtimes(outDirs[i], c18T1, c18T1))
+	}
+	c18Must(os.Chtimes(filepath.Join(out, "dir"), c18T1, c18T1))
 	c18Must(os.Chtimes(base, c18T1, c18T1))
 
 	before := vrCapture(base)
@@ -254,8 +283,22 @@ func c18Scenario(r *vrRepo, sn *data.Snapshot, base string, env c18Env) (changes
 		mu.Unlock()
 		return nil
 	}
-	if env.Select == "leaves" {
+	prefixSel := func(p string) func(string, bool) (bool, bool) {
+		// like --include p: p and everything below is selected, the ancestors of p are only traversed
+		return func(item string, isDir bool) (bool, bool) {
+			sel := item == p || strings.HasPrefix(item, p+"/")
+			return sel, isDir && (sel || strings.HasPrefix(p, item+"/"))
+		}
+	}
+	switch env.Select {
+	case "leaves":
 		rs.SelectFilter = func(item string, isDir bool) (bool, bool) { return !isDir, true }
+	case "dir-ax":
+		rs.SelectFilter = prefixSel("/a/x")
+	case "dir-axy":
+		rs.SelectFilter = prefixSel("/a/x/y")
+	case "special":
+		rs.SelectFilter = func(item string, isDir bool) (bool, bool) { return special[item] && !isDir, isDir }
 	}
 	func() {
 		defer func() {
@@ -349,7 +392,7 @@ func TestVerif_C18(t *testing.T) {
 	}
 	sort.Slice(trees, func(i, j int) bool { return c18Desc(trees[i].Nodes) < c18Desc(trees[j].Nodes) })
 	envKey := func(e c18Env) string {
-		return fmt.Sprintf("%s/%s|%s|del=%v|sparse=%v|%s", e.Pre.A, e.Pre.X, e.Overwrite, e.Delete, e.Sparse, e.Select)
+		return fmt.Sprintf("%s/%s|%s|del=%v|sparse=%v|%s|outx=%v", e.Pre.A, e.Pre.X, e.Overwrite, e.Delete, e.Sparse, e.Select, e.Outx)
 	}
 	sort.Slice(envs, func(i, j int) bool { return envKey(envs[i]) < envKey(envs[j]) })
 
@@ -357,6 +400,8 @@ func TestVerif_C18(t *testing.T) {
 	snaps := make([]*data.Snapshot, len(trees))
 	hasDir := make([]bool, len(trees))
 	incons := make([]bool, len(trees))
+	deep := make([]bool, len(trees))
+	specials := make([]map[string]bool, len(trees)) // locations of the non-regular leaves of each tree
 	var ino uint64 = 1000
 	for i, tr := range trees {
 		for _, n := range tr.Nodes {
@@ -369,9 +414,24 @@ func TestVerif_C18(t *testing.T) {
 			if n.M != "" && n.M != "ok" {
 				incons[i] = true
 			}
+			if specials[i] == nil {
+				specials[i] = map[string]bool{}
+			}
+			if n.T == "symlink" || n.T == "fifo" || n.T == "chardev" {
+				specials[i]["/"+n.N] = true
+			}
 			for _, k := range n.Kids {
-				if k == "S" || k == "T" {
+				switch k {
+				case "S", "T":
 					incons[i] = true
+					specials[i]["/"+n.N+"/x"] = true
+				case "s", "t", "p":
+					specials[i]["/"+n.N+"/x"] = true
+				case "q", "Q":
+					specials[i]["/"+n.N+"/x/y"] = true
+				}
+				if k == "D" || k == "q" || k == "Q" || k == "p" {
+					deep[i] = true
 				}
 			}
 		}
@@ -390,22 +450,32 @@ func TestVerif_C18(t *testing.T) {
 	type job struct{ ti, ei int }
 	var jobs []job
 	rng := kit.Rand(18)
-	quickP := 0.01
+	// sampling weights: the (many) three-node sequences over one name are mostly rejected as duplicates since
+	// 4eafad29e and get a lower density; the few trees with inconsistent fields / three levels a higher one
+	weight := func(ti int) float64 {
+		switch {
+		case incons[ti]:
+			return 4
+		case deep[ti]:
+			return 3
+		case len(trees[ti].Nodes) == 3:
+			return 0.25
+		}
+		return 1
+	}
+	baseP := 0.008
+	if kit.Thorough() {
+		baseP = 0.2
+	}
 	for ti := range trees {
 		for ei, e := range envs {
-			if e.Select == "leaves" && !hasDir[ti] {
+			if e.Select != "all" && !hasDir[ti] {
 				continue
 			}
-			if kit.Thorough() {
-				if e.Sparse != ((ti+ei)%2 == 0) || rng.Float64() >= 0.3 {
-					continue
-				}
-			} else if p := quickP; rng.Float64() >= func() float64 {
-				if incons[ti] {
-					return 4 * p // trees with inconsistent node fields are few: sample them more densely
-				}
-				return p
-			}() {
+			if kit.Thorough() && e.Sparse != ((ti+ei)%2 == 0) {
+				continue
+			}
+			if rng.Float64() >= baseP*weight(ti) {
 				continue
 			}
 			jobs = append(jobs, job{ti, ei})
@@ -423,7 +493,7 @@ func TestVerif_C18(t *testing.T) {
 			for ji := range ch {
 				j := jobs[ji]
 				base := filepath.Join(root, fmt.Sprintf("w%d", w), fmt.Sprintf("s%d", ji))
-				changes, nerr, err1 := c18Scenario(r, snaps[j.ti], base, envs[j.ei])
+				changes, nerr, err1 := c18Scenario(r, snaps[j.ti], base, envs[j.ei], specials[j.ti])
 				rec := c18Rec{Tree: c18Desc(trees[j.ti].Nodes), TreeIdx: j.ti, Nodes: []c18Node{}, Env: envs[j.ei], Changes: changes, Errors: nerr, Err1: err1}
 				for _, c := range changes {
 					if c.P[0] != "target" {
